@@ -168,6 +168,36 @@ if len(re.findall(r"provider\.add\(", main)) != 3:
 m = re.search(r"if cli\.use_local_debuginfo \{\n(.*?)\n            \}\n", main, flags=re.S)
 if not m or "DebugInfoSymbolProvider::new(&system_info, &modules)" not in m.group(1) or "std::process::exit(1)" not in m.group(1):
     die("`if cli.use_local_debuginfo { … }` block not of the expected shape")
+# the CPU rule in front of the provider (fix fb88910): `if !matches!(system_info.cpu, A | B) { error!(…); exit(1) }`
+mm = re.search(r"if !matches!\(\s*system_info\.cpu,\s*((?:minidump::system_info::Cpu::\w+\s*\|?\s*)+)\) \{\s*error!\((.*?)\);\s*std::process::exit\(1\);\s*\}", m.group(1), flags=re.S)
+if mm:
+    local_cpus = re.findall(r"Cpu::(\w+)", mm.group(1))
+    if m.group(1).index("if !matches!(") > m.group(1).index("DebugInfoSymbolProvider::new("):
+        die("the CPU rule comes after the provider is built")
+else:
+    if "matches!" in m.group(1) or "system_info.cpu" in m.group(1):
+        die("CPU rule of --use-local-debuginfo of an unexpected shape")
+    local_cpus = None   # no rule: every CPU reaches DebugInfoSymbolProvider::new
+# which CPUs the provider itself supports (minidump-unwind/src/symbols/debuginfo.rs)
+dbg = open(os.path.join(REPO, "minidump-unwind", "src", "symbols", "debuginfo.rs"), encoding="utf-8").read()
+md = re.search(r"let \(arch, mut unwinder\) = match system_info\.cpu \{\n(.*?)\n        \};", dbg, flags=re.S)
+if not md:
+    die("`let (arch, mut unwinder) = match system_info.cpu {` not found in debuginfo.rs")
+dbg_cpus = []
+dbg_fallback = None
+for line in md.group(1).split("\n"):
+    line = line.strip()
+    a = re.fullmatch(r"Cpu::(\w+) => \(Architecture::\w+, UnwinderImpl::\w+\(\)\),", line)
+    if a:
+        dbg_cpus.append(a.group(1))
+        continue
+    a = re.fullmatch(r"_ => (unimplemented|panic|todo|unreachable)!\(.*\),", line)
+    if a and dbg_fallback is None:
+        dbg_fallback = "panic"
+        continue
+    die(f"unexpected arm in debuginfo.rs's CPU match: {line}")
+if dbg_fallback is None:
+    die("debuginfo.rs: the CPU match has no panicking fallback any more — revisit the model")
 # the debuginfo provider is added BEFORE the symbolizer
 if main.index("DebugInfoSymbolProvider::new(") > main.index("http_symbol_supplier(\n"):
     die("order of providers changed")
@@ -197,6 +227,11 @@ L.append("")
 L.append("/-- `symbols_paths = cli.<first>; symbols_paths.extend(cli.<second>)` -/")
 L.append("def symbolPathMerge : List String := [" + ", ".join(lean_str(x) for x in merge) + "]")
 L.append(f"def cacheLeaf : String := {lean_str(cache_leaf)}")
+L.append("")
+L.append("/-- `--use-local-debuginfo`: the CPUs main.rs lets through to the debuginfo provider (`none`: no rule, all) -/")
+L.append("def localDebuginfoCpus : Option (List String) := " + ("none" if local_cpus is None else "some [" + ", ".join(lean_str(c) for c in local_cpus) + "]"))
+L.append("/-- the CPUs `DebugInfoSymbolProviderBuilder::build` handles; every other one is `unimplemented!()` -/")
+L.append("def debuginfoSupportedCpus : List String := [" + ", ".join(lean_str(c) for c in dbg_cpus) + "]")
 L.append(f"def timeoutDefault : Nat := {timeout_default}")
 L.append("")
 L.append("end MdModel.Cli.Gen")
@@ -205,4 +240,4 @@ path = os.path.join(VERIF, "lean", "MdModel", "Gen", "CliOpts.lean")
 os.makedirs(os.path.dirname(path), exist_ok=True)
 if not os.path.exists(path) or open(path).read() != out:
     open(path, "w").write(out)
-print(f"cli_opts.py: {len(feat_values)} feature values, {len(arms)} arms, overrides {overrides}, merge {merge}, interactive {atoms}")
+print(f"cli_opts.py: {len(feat_values)} feature values, {len(arms)} arms, overrides {overrides}, merge {merge}, interactive {atoms}, local-debuginfo cpus {local_cpus} (provider: {dbg_cpus})")
